@@ -138,6 +138,43 @@ theorem nodeDs_targetsOK (p : Program) (cfg : Cfg) (H : BodyFn) (i : Nat) (d : N
     subst h
     exact nodeD_targetsOK H _ _ _
 
+/-! ### the list-based heaps of the driver compute the same function -/
+
+theorem get_nil : LHeap.get [] = initHeap := by
+  funext c; rfl
+
+theorem get_cons (w : Cell × Nat) (l : LHeap) : LHeap.get (w :: l) = Heap.set (LHeap.get l) w.1 w.2 := by
+  funext c
+  simp only [LHeap.get, List.find?_cons, Heap.set]
+  by_cases h : c = w.1
+  · subst h; simp
+  · have : (w.1 == c) = false := by simpa using fun e => h e.symm
+    simp [this, h]
+
+theorem get_reverse_append (ws : List (Cell × Nat)) (l : LHeap) :
+    LHeap.get (ws.reverse ++ l) = applyWrites ws (LHeap.get l) := by
+  induction ws generalizing l with
+  | nil => rfl
+  | cons w ws ih =>
+    rw [List.reverse_cons, List.append_assoc, List.singleton_append, ih, get_cons, applyWrites_cons]
+
+theorem get_execL (d : NodeD) (l : LHeap) : (d.execL l).get = d.exec l.get := by
+  unfold NodeD.execL NodeD.exec
+  exact get_reverse_append _ _
+
+/-- the driver's association-list run computes exactly `runOrder` -/
+theorem get_runOrderL (ds : List NodeD) (order : List Nat) (l : LHeap) :
+    (runOrderL ds order l).get = runOrder ds order l.get := by
+  unfold runOrderL runOrder
+  induction order generalizing l with
+  | nil => rfl
+  | cons i order ih =>
+    simp only [List.foldl_cons]
+    rw [ih]
+    cases ds[i]? with
+    | none => rfl
+    | some d => simp only; rw [get_execL]
+
 /-! ### the heap of a run does not depend on the linearisation -/
 
 def actOf (ds : List NodeD) (i : Nat) (h : Heap) : Heap := match ds[i]? with | some d => d.exec h | none => h
